@@ -6,6 +6,7 @@ mod driver;
 mod report;
 mod rng;
 mod c15;
+mod c17;
 mod c19;
 mod c20;
 
@@ -58,6 +59,10 @@ fn main() {
             rep = Report::new(&o.prop, &o.tier, o.seed, "histories of relay operations (ask / publish frames on 3 connections, service send, clock advance); non-trivial = at least two relay operations; distinct by the full history");
             let p = o.prop.clone();
             match &replay_lines { Some(l) => c15::replay(&mut drv, &mut rep, l, &p), None => c15::run(&o, &mut drv, &mut rep, &p) }
+        }
+        "C17" => {
+            rep = Report::new("C17", &o.tier, o.seed, "(script of underlying poll_next results, sequence of recv/wait_for/next calls with poll budgets); non-trivial = script and call sequence both of length >= 2; distinct by (script, calls)");
+            match &replay_lines { Some(l) => c17::replay(&mut drv, &mut rep, l), None => c17::run(&o, &mut drv, &mut rep) }
         }
         "C20" => {
             rep = Report::new("C20", &o.tier, o.seed, "square matrices over the secp256k1 scalar field given as (n, n*n entries); each case runs determinant and inverse; non-trivial = n >= 2; distinct by (stream, entries)");
